@@ -200,7 +200,10 @@ class DiskCache:
             self._cache.delete(key + self._HMAC_SUFFIX)
             return False, None
 
-        if not hmac.compare_digest(stored_hmac, expected_hmac):
+        # Compare bytes: compare_digest() raises TypeError on non-ASCII str,
+        # and a damaged signature may contain anything.
+        stored_bytes = stored_hmac.encode("utf-8", "backslashreplace")
+        if not hmac.compare_digest(stored_bytes, expected_hmac.encode("ascii")):
             logger.warning(
                 "Cache HMAC mismatch for key %s — possible tampering, evicting",
                 key,
